@@ -1,14 +1,18 @@
-import NxModel.Nex.RmcClient
+import NxModel.Nex.RmcClientX
 import NxModel.DriverUtil
 /-! line-protocol driver for the RMC client call-matching model (stateful; one model object)
-  new <nextId>       -> ok                      fresh client whose `call_id` counter is <nextId>
+  new <nextId> [<k>] -> ok                      fresh client whose `call_id` counter is <nextId>, started with
+                                                <k> protocol servers (default 0)
+  hookret | hookraise -> outs                   the executing `server.logout(self)` returned / raised
+  xdump              -> xstate pending=[..] cleanup=none|running|returned|raised
   call <0|1>         -> outs                    `request(..., noresponse=<1>)` up to the send
   recv <hex>         -> outs | crash <Err>      one datagram through `RMCMessage.parse` + the loop body
   eof | cleanup      -> outs
   wake <t>           -> outs
   dump               -> state next=.. tasks=.. closed=.. requests=[..] responses=[..] frames=[t:id:ready ..]
   outs = `;`-joined: sent t id | done t body <hex> | done t rmc <code> | done t closed | done t none |
-         done t keyerror | set t | warn id | closing t,t,.. | notready t | notask t   (`-` when empty)
+         done t keyerror | set t | warn id | closing t,t,.. | notready t | notask t |
+         logout srv | cleanup-returned | cleanup-raised | nohook   (`-` when empty)
   A trailing ` SPECDIFF` is appended when the specification machine (run in lock step) emitted
   different observable outputs; ` H-IDS-BROKEN` once the distinct-live-ids hypothesis failed. -/
 open Nx Nx.Rmc Nx.RmcClient
@@ -38,8 +42,17 @@ def showOut : Out → String
 
 def showOuts (l : List Out) : String := if l.isEmpty then "-" else ";".intercalate (l.map showOut)
 
+def showXOut : XOut → String
+  | .core o => showOut o
+  | .logout srv => s!"logout {srv}"
+  | .cleanupReturned => "cleanup-returned"
+  | .cleanupRaised => "cleanup-raised"
+  | .noHook => "nohook"
+
+def showXOuts (l : List XOut) : String := if l.isEmpty then "-" else ";".intercalate (l.map showXOut)
+
 structure D where
-  s : State
+  x : XState
   a : CallSpec
   hids : Bool
 
@@ -50,20 +63,37 @@ def dump (s : State) : String :=
     | none => "?"
   s!"state next={s.nextId} tasks={s.nextTask} closed={if s.closed then 1 else 0} requests=[{joinNat (s.requests.map (·.1))}] responses=[{joinNat (s.responses.map (·.1))}] frames=[{" ".intercalate fr}]"
 
+def xdump (x : XState) : String :=
+  let st := match x.status with
+    | 0 => "none" | 1 => "running" | 2 => "returned" | _ => "raised"
+  s!"xstate pending=[{",".intercalate (x.pending.map toString)}] cleanup={st}"
+
+/-- a core op: through the extended machine; the specification machine runs in lock step on the core outputs -/
 def apply (d : D) (op : Op) : D × String :=
-  let ok := d.hids && distinctLive d.s [op]
-  let (s', o) := step d.s op
+  let ok := d.hids && distinctLive d.x.core [op]
+  let (x', o) := xstep d.x (.core op)
   let (a', oa) := CallSpec.step d.a op
-  let diff := o.filter Out.observable != oa
-  ({ s := s', a := a', hids := ok },
-   showOuts o ++ (if diff then " SPECDIFF" else "") ++ (if !ok then " H-IDS-BROKEN" else ""))
+  let diff := (coreOuts o).filter Out.observable != oa
+  ({ x := x', a := a', hids := ok },
+   showXOuts o ++ (if diff then " SPECDIFF" else "") ++ (if !ok then " H-IDS-BROKEN" else ""))
+
+def applyHook (d : D) (op : XOp) : D × String :=
+  let (x', o) := xstep d.x op
+  ({ d with x := x' }, showXOuts o)
 
 def stepLine (d : D) (line : String) : D × String :=
   match line.splitOn " " with
   | ["new", n] =>
     match n.toNat? with
-    | some n => ({ s := { init with nextId := n }, a := { CallSpec.init with nextId := n }, hids := true }, "ok")
+    | some n => ({ x := xinit n 0, a := { CallSpec.init with nextId := n }, hids := true }, "ok")
     | none => (d, "bad-op")
+  | ["new", n, k] =>
+    match n.toNat?, k.toNat? with
+    | some n, some k => ({ x := xinit n k, a := { CallSpec.init with nextId := n }, hids := true }, "ok")
+    | _, _ => (d, "bad-op")
+  | ["hookret"] => applyHook d .hookReturn
+  | ["hookraise"] => applyHook d .hookRaise
+  | ["xdump"] => (d, xdump d.x)
   | ["call", b] =>
     if b = "0" then apply d (.call false) else if b = "1" then apply d (.call true) else (d, "bad-op")
   | ["recv", h] =>
@@ -82,7 +112,7 @@ def stepLine (d : D) (line : String) : D × String :=
     match t.toNat? with
     | some t => apply d (.wake t)
     | none => (d, "bad-op")
-  | ["dump"] => (d, dump d.s)
+  | ["dump"] => (d, dump d.x.core)
   | _ => (d, "bad-op")
 
-def main : IO Unit := runState { s := init, a := CallSpec.init, hids := true : D } stepLine
+def main : IO Unit := runState { x := xinit 1 0, a := CallSpec.init, hids := true : D } stepLine
